@@ -241,6 +241,7 @@ def unit_read_signal(prop, which):
 
 
 UNITS = {
+    "C13": [_lazy("contracts.shorten", "unit_bit_reader", "C13")],
     "C11": [unit_read_signal("C11", "dispatch"), unit_read_signal("C11", "wds"), unit_read_signal("C11", "infer")],
     "C16": [unit_std("C16", "accumulate_vector"), unit_std("C16", "apply_vector"), unit_std("C16", "have_stats")],
     "C17": [unit_std("C17", "accumulate_vector"), _lazy("contracts.standardize", "unit_sanitize_accepts_saved", "C17")],
